@@ -1,5 +1,5 @@
 (* C03 - Everything the authenticator emits is CTAP2 canonical CBOR. *)
-From Ctap Require Import Base Schema Wire Typed Procs Inst Tables ProcTables Canonical WireP SerP FramingP C03P ObSerRole ObDeclOrder FnShapes Shapes ObShapeResponse ObShapeFilters.
+From Ctap Require Import Base Schema Wire Typed Procs Inst Tables ProcTables Canonical WireP SerP FramingP C03P ObSerRole ObDeclOrder FnShapes Shapes ObShapeResponse ObShapeFilters Deps ObDeps.
 Local Open Scope string_scope.
 Local Open Scope Z_scope.
 
@@ -68,6 +68,10 @@ Proof. exact generated_shapes_response. Qed.
 Theorem c03_modelled_functions_unchanged_filters : shapes_hold fn_shapes shapes_filters = true.
 Proof. exact generated_shapes_filters. Qed.
 
+(* the third-party crates the model represents by hand are pinned at the versions it was written against *)
+Theorem c03_modelled_dependencies_pinned : deps_hold lock_versions cargo_deps = true.
+Proof. exact generated_deps. Qed.
+
 Eval vm_compute in "ASSUMPTIONS c03_all_structs_ordered". Print Assumptions c03_all_structs_ordered.
 Eval vm_compute in "ASSUMPTIONS c03_encoder_canonical". Print Assumptions c03_encoder_canonical.
 Eval vm_compute in "ASSUMPTIONS c03_response_body_canonical". Print Assumptions c03_response_body_canonical.
@@ -79,3 +83,4 @@ Eval vm_compute in "ASSUMPTIONS c03_generated_conforms". Print Assumptions c03_g
 Eval vm_compute in "ASSUMPTIONS c03_generated_decl_order". Print Assumptions c03_generated_decl_order.
 Eval vm_compute in "ASSUMPTIONS c03_modelled_functions_unchanged_response". Print Assumptions c03_modelled_functions_unchanged_response.
 Eval vm_compute in "ASSUMPTIONS c03_modelled_functions_unchanged_filters". Print Assumptions c03_modelled_functions_unchanged_filters.
+Eval vm_compute in "ASSUMPTIONS c03_modelled_dependencies_pinned". Print Assumptions c03_modelled_dependencies_pinned.
